@@ -85,7 +85,7 @@ def run_schedule(m, scripts, schedule, fair=True):
         raise
 
 
-def one_case(ctx, m, scripts, style, prefix_len, tsk, seed_rng):
+def one_case(ctx, m, scripts, style, prefix_len, tsk, seed_rng, compare=True):
     real = L.RealRun(m, scripts)
     try:
         L.drive(real, seed_rng, prefix_len, style)
@@ -115,7 +115,7 @@ def one_case(ctx, m, scripts, style, prefix_len, tsk, seed_rng):
             replay["finding_key"] = classify(bad)
             replay["detail"] = bad
             ctx.violation(bad, replay)
-        if ctx.km is not None:
+        if ctx.km is not None and compare:
             wf = ctx.km.call("py_wf", *L.model_args(scripts, m["threaded"])) == b"1"
             ctx.count("wf_config_true" if wf else "wf_config_false(unthreaded machine)")
             if wf != bool(m["threaded"]):
@@ -248,11 +248,14 @@ def run(ctx):
                 continue
         ctx.count("machines_threaded" if threaded else "machines_unthreaded")
         ctx.count("trigger_methods_checked", len(m["events"]))
+        cmp_model = not any("trace_model" in str(b.get("what", "")) for b in ctx.broken) if ctx.broken else True
         for _ in range(n_runs if threaded else max(3, n_runs // 5)):
             scripts = L.random_scripts(rng, m["events"])
             style = rng.choice(["uniform", "sticky", "starve_worker", "main_first"])
-            if not one_case(ctx, m, scripts, style, rng.randint(0, 80), tsk, rng):
-                break
+            if not one_case(ctx, m, scripts, style, rng.randint(0, 80), tsk, rng, compare=cmp_model):
+                if not ctx.broken:
+                    break
+                cmp_model = False      # search mode: the model is known to disagree; keep running the REAL code against the oracle
             if len(ctx.violations) >= (4 if ctx.broken else 8):      # enough concrete failing inputs: stop searching
                 return
     # 3 all schedules with few preemptions on small scenarios
